@@ -487,7 +487,7 @@ func leadAPIs() []*api {
 	txOpts := txsAPIs()[0].opts
 	waitInit := txsAPIs()[0].calls[0].pre[0]
 	var out []*api
-	for _, d := range []time.Duration{250 * time.Millisecond, 252 * time.Millisecond, 254 * time.Millisecond} {
+	for _, d := range []time.Duration{2 * time.Millisecond} {
 		sp := &api{proto: "muxer", label: fmt.Sprintf("RequestTxIdsWhileChainSyncStops@%dms", d.Milliseconds()), ntn: true, duplex: true, pid: cs,
 			opts: func(h *hooks) []ouroboros.ConnectionOptionFunc { return append(csOpts(h), txOpts(h)...) },
 			start: func(c *conn) {
@@ -545,8 +545,8 @@ func floodAPIs() []*api {
 			},
 			start:   func(c *conn) { c.ChainSync().Client.Start() },
 			peerPre: []peerStep{{pid: pid, wait: 1, send: [][]byte{enc(chainsync.NewMsgIntersectFound(pointLo, tipHi))}}},
-			reqs:    1, maxLen: 1, bound: 1, boundLen: 0,
-			letters: []letter{{label: "RollForward*70", kind: kMsg, pid: pid, data: rf, rep: 70}},
+			reqs:    1, maxLen: 2, bound: 1, boundLen: 0,
+			letters: []letter{{label: "RollForward*100", kind: kMsg, pid: pid, data: rf, rep: 100}, {label: "Silence", kind: kSilence, pid: pid}},
 			maxTimeout: csTimeout(ntn),
 		}
 		sp.calls = []call{{name: "Stop", delay: 5 * time.Millisecond,
